@@ -18,6 +18,7 @@ import (
 	"math/big"
 	"math/rand"
 	"os"
+	"sort"
 	"strconv"
 	"time"
 
@@ -34,7 +35,8 @@ import (
 type Outcome struct {
 	Ok    bool
 	N     int
-	Dig   string
+	Dig   string            // digest of the whole decoded value
+	F     map[string]string // digests of named parts of the value (which part differs)
 	Panic bool
 }
 
@@ -55,8 +57,16 @@ func project(v any) []byte {
 	return b
 }
 
-// decoder: decode input into a fresh value, return ok, consumed, projection parts.
-type decoder func(in []byte) (bool, int, [][]byte)
+// decoder: decode input into a fresh value, return ok, consumed, named projection parts.
+type decoder func(in []byte) (bool, int, map[string][]byte)
+
+func one(b ...[]byte) map[string][]byte {
+	m := map[string][]byte{}
+	for i, x := range b {
+		m["value"+strconv.Itoa(i)] = x
+	}
+	return m
+}
 
 func both(dec decoder, in []byte) (s, p Outcome) {
 	run := func(perm bool) (o Outcome) {
@@ -71,7 +81,19 @@ func both(dec decoder, in []byte) (s, p Outcome) {
 		if !ok {
 			return Outcome{}
 		}
-		return Outcome{Ok: true, N: n, Dig: digest(parts...)}
+		o = Outcome{Ok: true, N: n, F: map[string]string{}}
+		keys := make([]string, 0, len(parts))
+		for k := range parts {
+			keys = append(keys, k)
+		}
+		sort.Strings(keys)
+		var all [][]byte
+		for _, k := range keys {
+			o.F[k] = digest(parts[k])
+			all = append(all, []byte(k), parts[k])
+		}
+		o.Dig = digest(all...)
+		return o
 	}
 	return run(false), run(true)
 }
@@ -79,11 +101,18 @@ func both(dec decoder, in []byte) (s, p Outcome) {
 // write logs one observation for TLC and, line-aligned in a side file, the input (for replay).
 func write(w *obs.Writer, src, id, target string, in []byte, s, p Outcome) {
 	w.Write(map[string]any{"src": src, "id": id, "target": target, "len": len(in),
-		"s_ok": s.Ok, "s_n": s.N, "s_dig": s.Dig, "s_panic": s.Panic,
-		"p_ok": p.Ok, "p_n": p.N, "p_dig": p.Dig, "p_panic": p.Panic})
+		"s_ok": s.Ok, "s_n": s.N, "s_dig": s.Dig, "s_panic": s.Panic, "s_f": nzm(s.F),
+		"p_ok": p.Ok, "p_n": p.N, "p_dig": p.Dig, "p_panic": p.Panic, "p_f": nzm(p.F)})
 	if side != nil {
 		side.Write(map[string]any{"src": src, "id": id, "target": target, "in": base64.StdEncoding.EncodeToString(in)})
 	}
+}
+
+func nzm(m map[string]string) map[string]string {
+	if m == nil {
+		return map[string]string{}
+	}
+	return m
 }
 
 var side *obs.Writer
@@ -119,12 +148,12 @@ func derTargets(kind string) []der.Target {
 }
 
 func targetDecoder(t *der.Target) decoder {
-	return func(in []byte) (bool, int, [][]byte) {
+	return func(in []byte) (bool, int, map[string][]byte) {
 		o := t.Run(in)
 		if o.Panic != "" {
 			panic(o.Panic)
 		}
-		return o.Acc, o.N, [][]byte{project(o.Val), o.Re}
+		return o.Acc, o.N, map[string][]byte{"value": project(o.Val), "reencoded": o.Re}
 	}
 }
 
@@ -151,7 +180,7 @@ type nested struct {
 	Alg  pkix.AlgorithmIdentifier
 	Exts []pkix.Extension `asn1:"optional,explicit,tag:3"`
 	Oids []asn1.ObjectIdentifier
-	Set  []int `asn1:"set"`
+	Set  []int         `asn1:"set"`
 	Tail asn1.RawValue `asn1:"optional"`
 }
 
@@ -162,13 +191,13 @@ type structTarget struct {
 }
 
 func dec[T any]() decoder {
-	return func(in []byte) (bool, int, [][]byte) {
+	return func(in []byte) (bool, int, map[string][]byte) {
 		var x T
 		rest, err := asn1.Unmarshal(in, &x)
 		if err != nil {
 			return false, 0, nil
 		}
-		return true, len(in) - len(rest), [][]byte{project(x)}
+		return true, len(in) - len(rest), map[string][]byte{"value": project(x)}
 	}
 }
 
@@ -220,6 +249,33 @@ var ops = [][2]string{
 	{"BoolShape", "01"}, {"BoolShape", "ffff"},
 	{"StrShape", "bmp-odd"}, {"StrShape", "utf8-bad"}, {"StrShape", "printable-bad"}, {"StrShape", "t61"}, {"StrShape", "general"},
 	{"ByteNoise", "1"}, {"Truncate", "1"},
+}
+
+// operators that produce the encodings permissive mode relaxes (and their neighbours)
+var relaxOps = [][2]string{
+	{"PadInt", ""}, {"LenNonMinimal", "long"}, {"LenNonMinimal", "pad4"},
+	{"TimeShape", "utc-nosec"}, {"TimeShape", "offset"}, {"TimeShape", "fraction"}, {"TimeShape", "feb30"}, {"TimeShape", "generalized"},
+	{"StrShape", "printable-bad"}, {"StrShape", "utf8-bad"}, {"StrShape", "bmp-odd"}, {"StrShape", "t61"},
+	{"BoolShape", "01"}, {"BitsShape", "unused7"}, {"OidShape", "lead80"}, {"NegInt", ""}, {"ZeroInt", ""},
+}
+
+func applicable(op [2]string, n *d.Node) bool {
+	u := n.Class == 0
+	switch op[0] {
+	case "PadInt", "NegInt", "ZeroInt", "HugeInt":
+		return u && n.Tag == 2 && !n.Constructed
+	case "TimeShape":
+		return u && (n.Tag == 23 || n.Tag == 24)
+	case "BitsShape":
+		return u && n.Tag == 3
+	case "OidShape":
+		return u && n.Tag == 6
+	case "BoolShape":
+		return u && n.Tag == 1
+	case "StrShape":
+		return u && (n.Tag == 12 || n.Tag == 19 || n.Tag == 22 || n.Tag == 18 || n.Tag == 20 || n.Tag == 30)
+	}
+	return true
 }
 
 // non-minimal INTEGER contents: the relaxation permissive mode documents for integers
@@ -305,14 +361,38 @@ func mutate(seed []byte, k int, rng *rand.Rand) ([]byte, string) {
 
 // ---------------------------------------------------------------- corpus C: certificates
 
-func certDecoder(in []byte) (bool, int, [][]byte) {
+// certDecoder projects a parsed certificate to named parts: the raw fields and every member
+// of its JSON encoding (members of "extensions", "signature", "subject_key_info" separately).
+func certDecoder(in []byte) (bool, int, map[string][]byte) {
 	c, err := x509.ParseCertificate(in)
 	if err != nil {
 		return false, 0, nil
 	}
-	return true, len(c.Raw), [][]byte{project(c), c.Raw, c.RawTBSCertificate, c.RawSubject, c.RawIssuer,
-		c.RawSubjectPublicKeyInfo, c.Signature, []byte(c.Subject.String()), []byte(c.Issuer.String()),
-		project(c.Extensions), project(c.UnhandledCriticalExtensions), project(c.DNSNames), project(c.PermittedDNSNames)}
+	m := map[string][]byte{"raw": c.Raw, "raw.tbs": c.RawTBSCertificate, "raw.subject": c.RawSubject, "raw.issuer": c.RawIssuer,
+		"raw.spki": c.RawSubjectPublicKeyInfo, "raw.signature": c.Signature,
+		"go.subject": []byte(c.Subject.String()), "go.issuer": []byte(c.Issuer.String()),
+		"go.extensions": project(c.Extensions), "go.unhandled_critical": project(c.UnhandledCriticalExtensions),
+		"go.version": project(c.Version), "go.serial": project(c.SerialNumber)}
+	var top map[string]json.RawMessage
+	j, err := json.Marshal(c)
+	if err != nil || json.Unmarshal(j, &top) != nil {
+		m["json"] = []byte(fmt.Sprintf("json error: %v", err))
+		return true, len(c.Raw), m
+	}
+	for k, v := range top {
+		switch k {
+		case "extensions", "signature", "subject_key_info", "unknown_extensions":
+			var sub map[string]json.RawMessage
+			if json.Unmarshal(v, &sub) == nil {
+				for k2, v2 := range sub {
+					m[k+"."+k2] = v2
+				}
+				continue
+			}
+		}
+		m[k] = v
+	}
+	return true, len(c.Raw), m
 }
 
 func certSeeds() []*inputs.Seed {
@@ -397,6 +477,77 @@ func main() {
 			in, desc := mutate(sd.Data, 1+rng.Intn(3), rng)
 			s, p := both(certDecoder, in)
 			write(w, "cert", fmt.Sprintf("%s/%d/%s", sd.Name, i, desc), "x509.ParseCertificate", in, s, p)
+		}
+		closeAll(w)
+		obs.Stat("observations", w.N)
+		obs.Stat("seeds", len(seeds))
+	case "sweep", "sweep-structs":
+		// systematic single mutations: every node of every seed x every relaxation-type operator
+		maxSeeds, _ := strconv.Atoi(os.Args[3])
+		w := open(os.Args[2])
+		rng := rand.New(rand.NewSource(obs.Seed()))
+		type seedT struct {
+			name, target string
+			data         []byte
+			dec          decoder
+		}
+		var seeds []seedT
+		if os.Args[1] == "sweep" {
+			cs := certSeeds()
+			// a seeded selection when limited (all seeds in the thorough tier)
+			rng.Shuffle(len(cs), func(i, j int) { cs[i], cs[j] = cs[j], cs[i] })
+			for _, sd := range cs {
+				if sd.NoMutate {
+					continue
+				}
+				seeds = append(seeds, seedT{sd.Name, "x509.ParseCertificate", sd.Data, certDecoder})
+			}
+		} else {
+			for _, t := range structTargets {
+				b, err := asn1.Marshal(t.Seed())
+				if err != nil {
+					obs.Fatal("seed of %s: %v", t.Name, err)
+				}
+				seeds = append(seeds, seedT{t.Name, t.Name, b, t.Dec})
+			}
+		}
+		if maxSeeds > 0 && len(seeds) > maxSeeds {
+			seeds = seeds[:maxSeeds]
+		}
+		src := map[string]string{"sweep": "cert", "sweep-structs": "struct"}[os.Args[1]]
+		for _, sd := range seeds {
+			root, err := d.Parse(sd.data)
+			if err != nil {
+				continue
+			}
+			var nodes []*d.Node
+			walk(root, true, &nodes)
+			for ni := range nodes {
+				for _, op := range relaxOps {
+					// fresh tree per mutation
+					r2, _ := d.Parse(sd.data)
+					var n2 []*d.Node
+					walk(r2, true, &n2)
+					if ni >= len(n2) {
+						continue
+					}
+					n := n2[ni]
+					if !applicable(op, n) {
+						continue
+					}
+					art := &d.DerArtifact{Root: r2}
+					if op[0] == "PadInt" {
+						if !padInt(n) {
+							continue
+						}
+					} else if art.ApplyDer(n, op[0], op[1], rng) != nil {
+						continue
+					}
+					in, _ := art.Bytes(rng)
+					s, p := both(sd.dec, in)
+					write(w, src, fmt.Sprintf("%s/node%d/%s:%s", sd.name, ni, op[0], op[1]), sd.target, in, s, p)
+				}
+			}
 		}
 		closeAll(w)
 		obs.Stat("observations", w.N)
